@@ -287,10 +287,15 @@ def threads_of(conn):
 def wait_idle(conn, timeout=10.0, also=None):
     """Wait until the connection has no networking thread (logical
     completion).  Returns True if reached, False if the watchdog fired."""
+    def finished(t):
+        # a slot that still names a thread which has run to its end will
+        # never be cleared by that thread: the connection is at rest (whether
+        # it is still *usable* is for the caller's reuse probe to find out)
+        return t is None or (t.ident is not None and not t.is_alive())
     deadline = time.monotonic() + timeout
     while time.monotonic() < deadline:
-        if conn.networking_thread is None and \
-                conn.new_networking_thread is None and \
+        if finished(conn.networking_thread) and \
+                finished(conn.new_networking_thread) and \
                 (also is None or also()):
             return True
         time.sleep(0.002)
